@@ -49,7 +49,7 @@ func (r *R) NonTrivial() { r.nontrivial = true }
 // recorded finding class id (pred computed from the input only). In strict mode (replay of a known
 // finding) nothing is excluded.
 func (r *R) Excluded(id string, pred bool) bool {
-	if !pred || r.strict {
+	if !pred || r.strict || noExclude[id] {
 		return false
 	}
 	r.excluded = append(r.excluded, id)
@@ -125,6 +125,7 @@ var (
 	verifDir = "/verif"
 	res      shardResult
 	hashes   = map[uint64]struct{}{}
+	noExclude = map[string]bool{}
 )
 
 // Tier returns "quick" or "thorough".
@@ -170,6 +171,13 @@ func Main(m *testing.M, id string) {
 	}
 	if v := os.Getenv("VERIF_DIR"); v != "" {
 		verifDir = v
+	}
+	// development aid: VERIF_NOEXCLUDE=F03ab,F09b disables the listed finding classes so that rapid finds and
+	// shrinks a representative input for known_findings.json (never set by the registered commands)
+	for _, id := range strings.Split(os.Getenv("VERIF_NOEXCLUDE"), ",") {
+		if id != "" {
+			noExclude[id] = true
+		}
 	}
 	outDir = os.Getenv("VERIF_OUT")
 	res = shardResult{Property: id, Tier: tier, Seed: seed, Shard: shard, Subs: map[string]*subStats{}}
@@ -335,7 +343,7 @@ func Run[C any](t *testing.T, p Prop[C]) {
 		runKnown(t, p)
 		runCorpus(t, p)
 	}
-	if p.Gen == nil || p.Cases <= 0 {
+	if p.Gen == nil || p.Cases <= 0 || t.Failed() {
 		return
 	}
 	n := p.Cases
@@ -432,7 +440,9 @@ func runKnown[C any](t *testing.T, p Prop[C]) {
 			t.Errorf("known finding %s: cannot decode case: %v", f.ID, err)
 			continue
 		}
-		r := &R{strict: true}
+		// open findings are replayed with the finding classes disabled (the strict oracle must fail);
+		// fixed findings are plain regression inputs and see the same oracle as generated cases
+		r := &R{strict: f.Status != "fixed"}
 		cerr := p.SafeCheck(c, r)
 		switch f.Status {
 		case "fixed":
